@@ -78,6 +78,22 @@ def slow_kernel_groups(res):
                 cs.append({"args": base + ["--slow-kernel", "%x:%x:1000:%d" % (lo, hi, us)], "key_args": base, "sets": dict(s),
                            "n": n, "w": w, "h": h, "bits": 8, "slow": k})
         groups.append((obsfam.key_of(cs[0]), cs))
+    # "stage X is held back right AFTER each of its hand-overs" (whatever X still does to an object it already passed on happens
+    # late), with the frame-end CDF update off: that update makes every picture wait for the packetization feedback of its
+    # references -- an extra dependency that hides hand-overs made too early
+    confs2 = [({"enable_tpl_la": 0, "frame_end_cdf_update": 0}, "fastpan", 352, 288, 18, 8)]
+    if not quick:
+        confs2.append(({"enable_tpl_la": 1, "frame_end_cdf_update": 0}, "motion", 256, 128, 33, 8))
+    for sets, content, w, h, n, preset in confs2:
+        s = {"enc_mode": preset, "logical_processors": 4, "recon_enabled": 1}
+        s.update(sets)
+        base = ["-n", str(n), "-w", str(w), "-h", str(h), "--content", content]
+        cs = [{"args": list(base), "key_args": base, "sets": dict(s), "n": n, "w": w, "h": h, "bits": 8}]
+        for k in sorted(rg):
+            lo, hi = rg[k]
+            cs.append({"args": base + ["--slow-kernel", "%x:%x:1000:%d:1" % (lo, hi, 30000 if quick else 100000)], "key_args": base, "sets": dict(s),
+                       "n": n, "w": w, "h": h, "bits": 8, "slow": k + "/after-post"})
+        groups.append((obsfam.key_of(cs[0]), cs))
     res.cov["slow_kernel_runs"] = sum(len(c) - 1 for _, c in groups)
     return groups
 
